@@ -37,6 +37,12 @@ type Check struct {
 
 var registry = map[string]*Check{}
 
+// commands are extra sub-commands of the binary (helper processes of checks).
+var commands = map[string]func(args []string) int{}
+
+// RegisterCommand adds a helper sub-command.
+func RegisterCommand(name string, f func(args []string) int) { commands[name] = f }
+
 // Register adds a check.
 func Register(c *Check) { registry[c.ID] = c }
 
@@ -260,6 +266,9 @@ func Main(args []string) int {
 		return worker(args[1:])
 	case "replay":
 		return replay(args[1:])
+	}
+	if f, ok := commands[args[0]]; ok {
+		return f(args[1:])
 	}
 	fmt.Fprintln(os.Stderr, "unknown command", args[0])
 	return 2
